@@ -60,6 +60,9 @@ def explore(tier, seed):
                         jobs.append(("roundtrip", label, entry, text, (bom, transport), n)); n += 1
             for hx in entry["malformed"]:
                 jobs.append(("malformed", label, entry, b"a ; //" + bytes.fromhex(hx) + b"\n", hx, n)); n += 1
+            # a rejected file followed by a valid one in the same invocation, on one worker (one read buffer)
+            if entry["malformed"] and configured:
+                jobs.append(("batch", label, entry, texts_for(entry)[-1], entry["malformed"][0], n)); n += 1
         jobs.append(("roundtrip", "native", {"label": "native", "codec": "utf-8", "chars": list("é日")}, "é  :=  '日' ;", (None, "file"), n))
 
         def run_job(job):
@@ -85,6 +88,31 @@ def explore(tier, seed):
                 if rc2 == 0 or out2:
                     res.append(("malformed-input-accepted", f"stdin: exit {rc2}, stdout {out2[:60]!r}", case))
                 os.unlink(f)
+                return (True, res)
+            if kind == "batch":
+                text = payload
+                formatted = F(text)
+                bad = b"a ; //" + bytes.fromhex(extra) + b"\n"
+                # (a UTF-16 file cut in the middle of a code unit is rejected whatever the configured encoding)
+                bad16 = b"\xff\xfe" + "a ;".encode("utf-16-le") + b"\x3d"
+                good, want = enc(text, entry), enc(formatted, entry)
+                d = os.path.join(sb.dir, f"b{k}")
+                os.makedirs(d)
+                names = {"a_bad.pas": bad, "b_good.pas": good, "c_bad16.pas": bad16, "d_good.pas": good}
+                for nm, c in names.items():
+                    open(os.path.join(d, nm), "wb").write(c)
+                rc, out, err = cli.run(args_enc + [os.path.join(d, nm) for nm in names], hermetic_cfg=sb.empty_cfg, env={"RAYON_NUM_THREADS": "1"})
+                case = {"oracle": "c17", "kind": "batch", "encoding": label, "text": text, "input_hex": good.hex(), "bad_hex": bad.hex(), "no_confirm": True}
+                if rc == 0:
+                    res.append(("malformed-input-accepted", f"exit 0 for a batch with two malformed files ({label})", case))
+                for nm, c in names.items():
+                    got = open(os.path.join(d, nm), "rb").read()
+                    exp = want if "good" in nm else c
+                    if got != exp:
+                        res.append(("batch-file-differs-from-its-stand-alone-result", f"{nm} ({label}): got {got[:80]!r}, want {exp[:80]!r}", case))
+                        break
+                import shutil
+                shutil.rmtree(d, ignore_errors=True)
                 return (True, res)
             text = payload
             bom, transport = extra
@@ -134,6 +162,9 @@ def replay(case):
     data = bytes.fromhex(case["input_hex"])
     args_enc = ["-Cencoding=" + label] if label not in ("UTF-16LE", "UTF-16BE") else []
     with cli.Sandbox("c17-replay") as sb:
+        if case["kind"] == "batch":
+            print("REPLAY: batch cases are re-run by the check itself")
+            return 2
         if case["kind"] == "malformed":
             rc, out, err = cli.run(args_enc, stdin=data, hermetic_cfg=sb.empty_cfg)
             if rc == 0 or out:
